@@ -15,8 +15,8 @@ from .errors import AnalysisError
 
 VERIF = Path(__file__).resolve().parent.parent
 KNOWN_FILE = VERIF / "known_findings.txt"
-EVIDENCE_DIR = VERIF / "evidence"
-REPLAY_DIR = VERIF / "replay"
+EVIDENCE_DIR = Path(os.environ.get("JSTAT_EVIDENCE_DIR", VERIF / "evidence"))
+REPLAY_DIR = Path(os.environ.get("JSTAT_REPLAY_DIR", VERIF / "replay"))
 
 
 def plain(v: Any, depth: int = 0) -> Any:
@@ -145,7 +145,7 @@ class Check:
                 kf_lines.append(f"KNOWN-FINDING: property={self.pid} rule={v.rule} construct={v.construct} {k.text}")
             else:
                 new.append(v)
-        REPLAY_DIR.mkdir(exist_ok=True)
+        REPLAY_DIR.mkdir(parents=True, exist_ok=True)
         out_lines: list[str] = []
         for i, v in enumerate(new):
             path = REPLAY_DIR / f"{self.pid}-{i}.json"
@@ -167,7 +167,7 @@ class Check:
         return 1 if new else 0
 
     def write_evidence(self, n_viol: int, kf_lines: list[str]) -> None:
-        EVIDENCE_DIR.mkdir(exist_ok=True)
+        EVIDENCE_DIR.mkdir(parents=True, exist_ok=True)
         total = sum(r["instances"] for r in self.rules.values())
         disch = sum(r["discharged"] for r in self.rules.values())
         expl = "; ".join(f"{n}: {r['desc']} [{r['discharged']}/{r['instances']}]" for n, r in self.rules.items())
